@@ -99,7 +99,7 @@ def _membership_tests(v: FuncView, table: str):
 def _fresh_guard(v: FuncView, table: str, key, sid: int):
     """the membership test that proves `key not in table` at CFG node sid, or None"""
     for m in _membership_atoms(v, table):
-        if key is not None and not _same_expr(m.key, key):
+        if key is not None and not _same_expr(m.key, key, v):
             continue
         lab = m.absent_branch()
         if lab is None:
@@ -170,8 +170,22 @@ def _implied_branch(test, atom, want_true: bool) -> Optional[str]:
     return None
 
 
-def _same_expr(a: ast.AST, b: ast.AST) -> bool:
-    return norm(a) == norm(b)
+def _same_expr(a: ast.AST, b: ast.AST, v: Optional[FuncView] = None) -> bool:
+    """the same expression - as written, through a walrus (`(k := f(x)) not in T` binds k), or after folding
+    single-definition temporaries back in (`key = (nodes, layer)`)"""
+    a0 = getattr(a, "_orig", a)
+    b0 = getattr(b, "_orig", b)
+    for x, y in ((a0, b0), (b0, a0)):
+        if isinstance(x, ast.NamedExpr) and (norm(x.target) == norm(y) or norm(x.value) == norm(y)):
+            return True
+    if norm(a) == norm(b):
+        return True
+    if v is not None:
+        try:
+            return norm(v.inline(a0)) == norm(v.inline(b0))
+        except Exception:
+            return False
+    return False
 
 
 def _writes(v: FuncView, table: str, ops=("store", "aug", "setattr"), with_calls=False) -> List[TOp]:
@@ -435,7 +449,7 @@ def check_record_creation_guarded(ctx, res: Result, cls: str, skip=("add_edge", 
             sid = _cfgid(v, st.at)
             ok = False
             for ifn, keyexpr, positive, atom in tests:
-                if not _same_expr(keyexpr, st.key):
+                if not _same_expr(keyexpr, st.key, v):
                     continue
                 is_in = isinstance(atom.ops[0], ast.In)
                 lab = _implied_branch(ifn.test, atom, not is_in)
@@ -511,6 +525,52 @@ def check_remove_edge(ctx, res: Result, cls: str):
                     res.add("P-DEL", f, norm(loop.iter), tab + ":iter", "ok" if good else "unknown", "" if good else f"loop iterates over {ik!r}", _where(v, loop))
 
 
+def check_record_deletion_joint(ctx, res: Result, cls: str):
+    """P-DELJOINT: a method other than remove_edge that deletes a record's entry from an id-keyed table with its own hands
+    (not by calling remove_edge) has the duties of remove_edge on that path: the other id-keyed tables, the key table and the
+    incidence lists of the record's nodes lose the id too.  (A re-keying `del _edge_list[k]; _edge_list[k2] = id` is not a
+    deletion of the record and is not an anchor.)"""
+    n = 0
+    for name, fi in sorted(ctx.methods(cls).items()):
+        if name in ("remove_edge", "clear", "__init__", "populate_from_dict", "set_edge_list", "set_adj_dict"):
+            continue
+        if name.startswith("_") and not name.startswith("__"):
+            continue  # private helpers (the pieces remove_edge is made of) are judged through the public methods that call them
+        v = ctx.view(fi)
+        f = fi.short
+        allops = v.ops(with_calls=True)
+        # deletions done by the method itself or by a private helper it calls - not those reached through remove_edge(s)
+        direct = [o for o in allops if o.table in T.EDGE_ID_TABLES and o.op == "del" and not o.elem_level and not o.may and o.cls == cls and (o.via is None or (o.via.split(".")[-1].startswith("_") and not o.via.split(".")[-1].startswith("__")))]
+        if not direct:
+            continue
+        for d in direct:
+            n += 1
+            did = _cfgid(v, d.at)
+            for tab in tuple(T.EDGE_ID_TABLES) + ("_edge_list",):
+                if tab == d.table:
+                    continue
+                w = [o for o in allops if o.table == tab and o.op == "del" and not o.elem_level]
+                if not w:
+                    _absent(res, v, "P-DELJOINT", norm(d.node), tab, f"{f} deletes a record from {d.table} but never from {tab}: the tables disagree about which hyperedges exist (stale entry)", _where(v, d.node))
+                else:
+                    res.check(v.passes_through(did, {v.must_id(o) for o in w}), "P-DELJOINT", f, norm(d.node), tab, f"{f} deletes a record from {d.table} on a path that does not delete it from {tab}: the tables disagree about which hyperedges exist (stale entry)", _where(v, d.node))
+            for tab in T.ADJ_TABLES[cls]:
+                rm = [o for o in allops if o.table == tab and ((o.op == "remove" and o.elem_level) or (o.op == "del" and not o.elem_level))]
+                if not rm:
+                    _absent(res, v, "P-DELJOINT", norm(d.node), tab, f"{f} deletes a record from {d.table} but never removes its id from the incidence lists in {tab}: nodes keep a stale incidence (degrees, neighbours and components are computed from them)", _where(v, d.node))
+                else:
+                    ids = {v.lifted(o) if o.elem_level else v.must_id(o) for o in rm}
+                    # the incidence list of the node being removed is dropped wholesale (`del _adj[node]`): that covers this
+                    # node only - the record's OTHER nodes need an element-level removal
+                    elem = [o for o in rm if o.elem_level]
+                    if not elem:
+                        _absent(res, v, "P-DELJOINT", norm(d.node), tab, f"{f} deletes a record from {d.table} but only drops one node's incidence list: the record's other nodes keep the stale id in {tab} (degrees, neighbours and components are computed from them)", _where(v, d.node))
+                    else:
+                        res.check(v.passes_through(did, {v.lifted(o) for o in elem}), "P-DELJOINT", f, norm(d.node), tab, f"{f} deletes a record from {d.table} on a path that leaves its id in the incidence lists of {tab}", _where(v, d.node))
+    if not n:
+        res.ok("P-DELJOINT", cls, "no record deletion outside remove_edge", "scan", "")
+
+
 # ----------------------------------------------------------------------------- nodes
 def check_add_node(ctx, res: Result, cls: str):
     v = ctx.view(f"{cls}.add_node")
@@ -552,17 +612,23 @@ def _under_empty_test(v: FuncView, o: TOp) -> bool:
     oid = _cfgid(v, o.at)
     for n in walk_no_nested(v.fi.node):
         if isinstance(n, ast.If):
-            for atom, pos in _atoms(n.test, True):
+            test = n.test
+            # `is_empty = stored == {}; if is_empty:` - a boolean local naming the test
+            if isinstance(test, ast.Name) or (isinstance(test, ast.UnaryOp) and isinstance(test.operand, ast.Name)):
+                nm = test if isinstance(test, ast.Name) else test.operand
+                if isinstance(v.resolve(nm), (ast.Compare, ast.BoolOp, ast.UnaryOp)):
+                    test = v.inline(test, depth=1)
+            for atom, pos in _atoms(test, True):
                 if isinstance(atom, ast.Compare) and len(atom.ops) == 1 and isinstance(atom.ops[0], ast.Eq):
                     l, r = atom.left, atom.comparators[0]
                     for a, b in ((l, r), (r, l)):
                         if isinstance(a, ast.Name) and isinstance(b, ast.Dict) and not b.keys and _mirrors_entry(v, a.id, o):
-                            lab = _implied_branch(n.test, atom, True)
+                            lab = _implied_branch(test, atom, True)
                             if lab and v.cfg.branch_dominated(v.cfg.by_ast[id(n.test)], lab, oid):
                                 return True
                         a = v.inline(a, depth=1) if isinstance(a, ast.Name) else a  # stored = T[node]; if stored == {}:
-                        if isinstance(a, ast.Subscript) and (v.table_of(a.value) or (None, None))[1] == o.table and isinstance(b, ast.Dict) and not b.keys and o.key is not None and _same_expr(a.slice, o.key):
-                            lab = _implied_branch(n.test, atom, True)
+                        if isinstance(a, ast.Subscript) and (v.table_of(getattr(a.value, "_orig", a.value)) or (None, None))[1] == o.table and isinstance(b, ast.Dict) and not b.keys and o.key is not None and _same_expr(a.slice, o.key, v):
+                            lab = _implied_branch(test, atom, True)
                             if lab and v.cfg.branch_dominated(v.cfg.by_ast[id(n.test)], lab, oid):
                                 return True
     return False
@@ -576,12 +642,12 @@ def _mirrors_entry(v: FuncView, name: str, o: TOp) -> bool:
         return False
     for d in defs:
         val = d.value
-        if isinstance(val, ast.Subscript) and (v.table_of(val.value) or (None, None))[1] == o.table and _same_expr(val.slice, o.key):
+        if isinstance(val, ast.Subscript) and (v.table_of(val.value) or (None, None))[1] == o.table and _same_expr(val.slice, o.key, v):
             continue
-        if isinstance(val, ast.Call) and isinstance(val.func, ast.Attribute) and val.func.attr == "get" and val.args and (v.table_of(val.func.value) or (None, None))[1] == o.table and _same_expr(val.args[0], o.key):
+        if isinstance(val, ast.Call) and isinstance(val.func, ast.Attribute) and val.func.attr == "get" and val.args and (v.table_of(val.func.value) or (None, None))[1] == o.table and _same_expr(val.args[0], o.key, v):
             continue  # T.get(key[, sentinel]): the entry when there is one
         blk = v.parent.get(id(d))
-        stored = [x for x in v.ops() if x.table == o.table and x.op == "store" and not x.elem_level and isinstance(x.value, ast.Name) and x.value.id == name and x.key is not None and _same_expr(x.key, o.key) and v.parent.get(id(x.at)) is blk]
+        stored = [x for x in v.ops() if x.table == o.table and x.op == "store" and not x.elem_level and isinstance(x.value, ast.Name) and x.value.id == name and x.key is not None and _same_expr(x.key, o.key, v) and v.parent.get(id(x.at)) is blk]
         if not stored:
             return False
     return True
